@@ -144,7 +144,8 @@ def work(shard, res, tier, seed):
         if "vector" in c:
             run_match(load_db("manager"), c["vector"], res, "replay")
         elif "reaction" in c:
-            entry_one(c["reaction"], load_db("manager"), res)
+            for which in ("manager", "automated", "manager", "automated"):
+                entry_one(c["reaction"], load_db(which), res)
         elif "record" in c:
             shard = {"records": True}
         else:
@@ -206,11 +207,14 @@ def work(shard, res, tier, seed):
                 continue
             run_match(db, vec, res, "sums", budget=15)
     if "entries" in shard:
-        db = load_db("manager")
+        # both shipped databases are used side by side in one process (a completion must come from the database
+        # that was passed in, whatever was solved before)
+        dbs = [load_db("manager"), load_db("automated")]
         pairs = G.deletions(rng, shard["entries"]) + G.redox_family(rng, shard["entries"] // 4) + \
             G.dihalogen_oxygen_loss(rng, shard["entries"] // 4)
-        for tag, rx in pairs:
-            entry_one(rx, db, res)
+        for k, (tag, rx) in enumerate(pairs):
+            for db in (dbs if k % 2 == 0 else dbs[::-1]):
+                entry_one(rx, db, res)
     if "pipeline" in shard:
         pipeline_part(shard["pipeline"], rng, res)
 
@@ -243,21 +247,29 @@ def entry_one(rx, db, res):
     if "new_reaction" not in out:
         return
     before = oracle.imbalance(out["new_reaction"])
-    certain, uncertain = RuleConstraint(
-        [out], ban_atoms=["[O].[O]", "F-F", "Cl-Cl", "Br-Br", "I-I", "Cl-Br", "Cl-I", "Br-I"]).fit()
-    res.count("constraint_calls")
+    # the same imputer output is handed to the constraint step three times (pipeline ban list, the class default,
+    # pipeline ban list again): every pass is judged; a pass must not depend on an earlier one
+    PIPE = ["[O].[O]", "F-F", "Cl-Cl", "Br-Br", "I-I", "Cl-Br", "Cl-I", "Br-I"]
+    for npass, ban in enumerate((PIPE, None, PIPE)):
+        rc = RuleConstraint([out], ban_atoms=ban) if ban is not None else RuleConstraint([out])
+        certain, uncertain = rc.fit()
+        res.count("constraint_calls")
+        judge_constraint(rx, b, before, certain, uncertain, res, npass)
+
+
+def judge_constraint(rx, b, before, certain, uncertain, res, npass):
     for group, acc in ((certain, True), (uncertain, False)):
         for e in group:
             res.ev()
             nr = e.get("new_reaction")
             ok = oracle.balanced(nr)
             if ok is None:
-                res.viol("constraint_output_unparsable", case={"reaction": rx}, new_reaction=nr)
+                res.viol("constraint_output_unparsable", case={"reaction": rx}, new_reaction=nr, constraint_pass=npass)
                 continue
             after = oracle.imbalance(nr)
             if after != before:
                 res.viol("constraint_changed_composition_difference", case={"reaction": rx},
-                         before=before, after=after, new_reaction=nr, accepted=acc)
+                         before=before, after=after, new_reaction=nr, accepted=acc, constraint_pass=npass)
             if acc:
                 res.count("constraint_accepted")
                 fp_in = oracle.frags(b)
@@ -266,7 +278,7 @@ def entry_one(rx, db, res):
                 bad = [k for k, v in added.items() if v > 0 and k in BANNED]
                 if bad:
                     res.viol("accepted_completion_adds_dihalogen_to_products", case={"reaction": rx},
-                             added=bad, new_reaction=nr)
+                             added=bad, new_reaction=nr, constraint_pass=npass)
             else:
                 res.count("constraint_rejected")
 
